@@ -529,4 +529,39 @@ theorem deframe_frameFixedAs (newFormat : Bool) (tag form : Nat)
     rw [parseHeader_new tag ht _ _ _ (decodeNewLen_encodeNewLenAs form body.length l (body ++ rest) hl)]
     simp [deframeBody, hnl]
 
+/-! ## packet streams -/
+
+theorem deframe_nil : deframe [] = .error .eof := by
+  simp [deframe, parseHeader]
+
+theorem Framed.ne_nil {h : Hdr} {b s : Bytes} (hf : Framed h b s) : s ≠ [] := by
+  intro hs
+  have := hf []
+  rw [hs] at this
+  simp [deframe_nil] at this
+
+/-- a stream that starts with framed packets is split at exactly their ends; what follows them is
+treated as the stream would be on its own -/
+theorem deframeAll_framed_append : ∀ (ps : List (Hdr × Bytes × Bytes)) (fuel : Nat) (t : Bytes),
+    (∀ p ∈ ps, Framed p.1 p.2.1 p.2.2) →
+    deframeAll (ps.length + fuel) ((ps.map (·.2.2)).flatten ++ t) =
+      (ps.map (fun p => (p.1, p.2.1)) ++ (deframeAll fuel t).1, (deframeAll fuel t).2)
+  | [], fuel, t, _ => by simp
+  | p :: ps, fuel, t, hall => by
+    have hp : Framed p.1 p.2.1 p.2.2 := hall p (by simp)
+    have hne := hp.ne_nil
+    have ih := deframeAll_framed_append ps fuel t (fun q hq => hall q (by simp [hq]))
+    have hlen : (p :: ps).length + fuel = (ps.length + fuel) + 1 := by simp; omega
+    rw [hlen]
+    simp only [List.map_cons, List.flatten_cons, List.append_assoc]
+    obtain ⟨x, s', hs⟩ : ∃ x s', p.2.2 = x :: s' := by
+      cases hq : p.2.2 with
+      | nil => exact absurd hq hne
+      | cons x s' => exact ⟨x, s', rfl⟩
+    have hd := hp ((ps.map (·.2.2)).flatten ++ t)
+    rw [hs] at hd ⊢
+    simp only [List.cons_append] at hd ⊢
+    rw [deframeAll, hd]
+    simp only [ih]
+
 end Rpgp
